@@ -31,7 +31,8 @@ PLANS = {
             ("thrsim", "tsi", "locked_misuse", 6000, 100000, ("C10",))],      # after a request the detector refused with a report (the test is left by a jump), every later tracked request of any thread still returns: one that waits for ever for the detector's lock neither returns a sound block nor fails cleanly
     "C06": [("heapsim", "asan", "misuse", 300000, 3000000), ("heapsim", "noguard", "misuse", 100000, 1000000), ("heapsim", "asan", "accounting", 20000, 200000, ("C04",)),
             ("heapsim", "asan", "soundness", 30000, 300000, ("C04",)),      # (C04 released_while_held counts here: a block whose memory went back to the platform while the detector still lists it cannot be released silently any more, and the history cannot safely go on to watch it try) after a request that failed (platform, allocator or bookkeeping node) the paired release of the old block is still silent
-            ("heapsim", "asan", "oom", 60000, 600000, ("C04",))],      # paired releases and reallocations while out of memory is simulated or a failable allocator is installed: no report, and the block reaches the free seam
+            ("heapsim", "asan", "oom", 60000, 600000, ("C04",)),
+            ("thrsim", "tsi", "locked_misuse", 6000, 100000, ("C10",))],      # misuse committed by a real test through the global operators and the plugin's reporter (a second one in the teardown of the test that already failed): each is reported as a failure of that test      # paired releases and reallocations while out of memory is simulated or a failable allocator is installed: no report, and the block reaches the free seam
     "C07": [("runsim", "asan", "leaks", 80000, 1500000), ("runsim", "noexc", "leaks", 40000, 500000),
             ("runsim", "plain", "process", 8000, 150000, ("C11",))],      # leaking tests in forked children: the verdict must reach the parent
     "C08": [("mocksim", "asan", "verdict", 40000, 800000), ("mocksim", "asan", "cfront", 6000, 100000)],
